@@ -267,6 +267,12 @@ class ResolveAnchorIds(Transform):
 
             explicit[name] = (labelid, implicit_title)
 
+        # the registries above also hold elements that a directive registered
+        # while parsing its content and then discarded (e.g. a figure without caption)
+        tree_ids = {
+            id_ for node in findall(self.document)(nodes.Element) for id_ in node["ids"]
+        }
+
         for refnode in findall(self.document)(nodes.reference):
             if not refnode.get("id_link"):
                 continue
@@ -277,7 +283,7 @@ class ResolveAnchorIds(Transform):
             # search explicit first
             # (explicit target names are registered by docutils in normalised form)
             explicit_name = nodes.fully_normalize_name(target)
-            if explicit_name in explicit:
+            if explicit_name in explicit and explicit[explicit_name][0] in tree_ids:
                 ref_id, implicit_title = explicit[explicit_name]
                 refnode["refid"] = ref_id
                 if not refnode.children and implicit_title:
@@ -291,7 +297,7 @@ class ResolveAnchorIds(Transform):
                 continue
 
             # now search implicit
-            if target in slugs:
+            if target in slugs and slugs[target][1] in tree_ids:
                 _, sect_id, implicit_title = slugs[target]
                 refnode["refid"] = sect_id
                 if not refnode.children and implicit_title:
